@@ -478,6 +478,9 @@ class Inliner:
         if isinstance(f, ast.Attribute) and isinstance(f.value, ast.Name) and cls is not None:
             if f.value.id in ("self", cls.name) and f.attr in helpers:
                 return helpers[f.attr], True
+            inh = INHERITED_HELPERS[0].get(cls.name, {})
+            if f.value.id in ("self", cls.name) and f.attr in inh and not any(isinstance(x, ast.FunctionDef) and x.name == f.attr for x in cls.body):
+                return inh[f.attr], True        # a new helper inherited from a base class of another module
         if isinstance(f, ast.Name) and f.id in self.local_helpers:
             return self.local_helpers[f.id], False
         if isinstance(f, ast.Name) and f.id in self.module_helpers:
@@ -1074,6 +1077,37 @@ def stable_index(sl):
         if isinstance(x, ast.Call):
             return False
     return True
+
+
+INHERITED_HELPERS = [{}]   # class name -> {method name: FunctionDef} of NEW methods defined in a base class (any analysed file)
+
+
+def collect_inherited_helpers(parsed, vocab):
+    """For every class: the new (non-baseline) methods of its base classes, found through the class names of the analysed
+    packages; a method name that is defined in more than one class anywhere is left out (it may be an override)."""
+    classes = {}
+    for file, tree in parsed.items():
+        for c in tree.body:
+            if isinstance(c, ast.ClassDef):
+                classes.setdefault(c.name, (file, c))
+    multi = collect_multiply_defined(list(parsed.values()))
+    out = {}
+    for name, (file, c) in classes.items():
+        seen, todo, found = set(), [b.id for b in c.bases if isinstance(b, ast.Name)], {}
+        while todo:
+            b = todo.pop(0)
+            if b in seen or b not in classes:
+                continue
+            seen.add(b)
+            bfile, bc = classes[b]
+            known = set((vocab.get(bfile, {"classes": {}})["classes"].get(b) or {}))
+            for f in bc.body:
+                if isinstance(f, ast.FunctionDef) and f.name not in known and not f.name.startswith("__") and f.name not in multi and f.name not in found:
+                    found[f.name] = f
+            todo.extend(x.id for x in bc.bases if isinstance(x, ast.Name))
+        if found:
+            out[name] = found
+    return out
 
 
 def collect_multiply_defined(trees):
@@ -2307,17 +2341,19 @@ def split_webs(fn, known):
 
 def inline_filtered_lists(fn):
     """L = [v for v in R if P(v)]  ...  for x in L: BODY      ->      for x in R: if P(x): BODY
-    for a local L that is used only as the iterable of for loops, when P consists of leaf tests (`.get_children()` / `.children`
-    compared with None) and plain locals, and nothing between the definition and the end of the last such loop can grow the
-    tree, rebind a name that R or P read, or call unknown code: the same elements are visited in the same order and P has the
-    same value when the loop reaches an element as it had when the list was built."""
+    for a local L that is used only as the iterable of for loops (and in `n = len(L)` before the first of them, which becomes a
+    counter incremented under the guard).  P may consist of leaf tests (`.get_children()` / `.children` compared with None) and
+    plain locals - then nothing between the definition and the end of the last such loop may grow the tree, rebind a name that R
+    or P read, or call unknown code - or of any side-effect-free tests (getters, flags), and then that region may not change
+    any object state at all: the same elements are visited in the same order and P has the same value when the loop reaches an
+    element as it had when the list was built."""
     par = {}
     for n in ast.walk(fn):
         for c in ast.iter_child_nodes(n):
             par[id(c)] = n
     k = 0
     for blk in _blocks(fn):
-        for i, st in enumerate(list(blk)):
+        for st in list(blk):
             if st not in blk:
                 continue
             i = blk.index(st)
@@ -2330,34 +2366,39 @@ def inline_filtered_lists(fn):
             if g.is_async or len(g.ifs) != 1 or not isinstance(g.target, ast.Name) or not (isinstance(lc.elt, ast.Name) and lc.elt.id == g.target.id):
                 continue
             L, v, P, R = st.targets[0].id, g.target.id, g.ifs[0], g.iter
-            # P: leaf tests and plain names only
-            okp = True
+            leaf_only = True
             for n in ast.walk(P):
                 if isinstance(n, ast.Call):
                     if not (isinstance(n.func, ast.Attribute) and n.func.attr == "get_children" and not n.args and not n.keywords):
-                        okp = False
+                        leaf_only = False
                 elif isinstance(n, ast.Attribute):
                     if n.attr not in ("get_children", "children"):
-                        okp = False
+                        leaf_only = False
                 elif not isinstance(n, (ast.Name, ast.Compare, ast.BoolOp, ast.UnaryOp, ast.Constant, ast.Is, ast.IsNot, ast.And, ast.Or, ast.Not,
                                         ast.Load, ast.Subscript, ast.Eq, ast.NotEq)):
-                    okp = False
-            if not okp or not simple_arg(R) or isinstance(R, ast.Constant):
+                    leaf_only = False
+            if not leaf_only and not pure_expr(P):
+                continue
+            if not simple_arg(R) or isinstance(R, ast.Constant):
                 continue
             occ = [n for n in ast.walk(fn) if isinstance(n, ast.Name) and n.id == L]
             uses = [n for n in occ if n is not st.targets[0]]
-            loops = []
+            loops, counts = [], []
             ok = bool(uses)
             for n in uses:
                 p1 = par.get(id(n))
+                p2 = par.get(id(p1)) if p1 is not None else None
                 if isinstance(p1, ast.For) and p1.iter is n and isinstance(p1.target, ast.Name):
                     loops.append(p1)
+                elif isinstance(p1, ast.Call) and src(p1.func) == "len" and len(p1.args) == 1 and isinstance(p2, ast.Assign) and p2.value is p1 and \
+                        len(p2.targets) == 1 and isinstance(p2.targets[0], ast.Name) and p2 in blk:
+                    counts.append(p2)
                 else:
                     ok = False
-            if not ok:
+            if not ok or not loops or len(counts) > 1:
                 continue
-            # the statements of this block from the definition to the last one that contains a use
             last = i
+            first_loop_idx = None
             for lp in loops:
                 cur = lp
                 while cur is not None and cur not in blk:
@@ -2366,25 +2407,51 @@ def inline_filtered_lists(fn):
                     ok = False
                     break
                 last = max(last, blk.index(cur))
+                if first_loop_idx is None or blk.index(cur) < first_loop_idx:
+                    first_loop_idx = blk.index(cur)
+                    first_loop = lp
+                    first_top = cur
             if not ok:
                 continue
+            if counts:
+                cs = counts[0]
+                cn = cs.targets[0].id
+                ci = blk.index(cs)
+                # the counter: defined after L, before the first loop (which must be a statement of this block), not read or written
+                # until that loop has ended, nor inside it
+                if not (i < ci < first_loop_idx and first_top is first_loop):
+                    continue
+                mid = blk[ci + 1:first_loop_idx + 1]
+                if any(isinstance(n, ast.Name) and n.id == cn for t in mid for n in ast.walk(t)):
+                    continue
             region = blk[i + 1:last + 1]
             rd = {n.id for e in (R, P) for n in ast.walk(e) if isinstance(n, ast.Name)} - {v}
             for t in region:
+                if counts and t is counts[0]:
+                    continue
                 w = writes_of(t)
                 if "<heap:TREE>" in w or "<heap>" in w or (w & rd) or any(x.startswith("<heap:") and x[6:-1] in {src(R)} for x in w):
                     ok = False
                     break
-                # a loop variable of one of the rewritten loops must not collide with what R / P read
+                if not leaf_only and "<state>" in w:
+                    ok = False
+                    break
             if not ok or any(lp.target.id in rd for lp in loops):
                 continue
             for lp in loops:
                 test = _Rename({}, {v: ast.Name(id=lp.target.id, ctx=ast.Load())}).visit(copy.deepcopy(P))
                 lp.iter = copy.deepcopy(R)
-                guard = ast.If(test=test, body=lp.body, orelse=[])
+                body = lp.body
+                if counts and lp is first_loop:
+                    inc = ast.AugAssign(target=ast.Name(id=counts[0].targets[0].id, ctx=ast.Store()), op=ast.Add(), value=ast.Constant(value=1))
+                    ast.copy_location(inc, lp)
+                    body = [inc] + body
+                guard = ast.If(test=test, body=body, orelse=[])
                 ast.copy_location(guard, lp)
                 lp.body = [guard]
                 ast.fix_missing_locations(lp)
+            if counts:
+                counts[0].value = ast.copy_location(ast.Constant(value=0), counts[0].value)
             blk.remove(st)
             k += 1
     return k
@@ -2594,6 +2661,79 @@ def fuse_search_loops(fn):
                 break
             if again:
                 break
+    return k
+
+
+def canonical_layer_getter(fn):
+    """P.get_layer_node_list(d) -> P.get_node_list()[d]: the getter is `return self.node_list[depth]` (R03-OWN checks that on every
+    run), so both designate the same layer object; one spelling is kept so that designators written either way compare equal."""
+    k = [0]
+
+    class T(ast.NodeTransformer):
+        def visit_Call(self, n):
+            self.generic_visit(n)
+            if isinstance(n.func, ast.Attribute) and n.func.attr == "get_layer_node_list" and not isinstance(n.func.value, ast.Name) or \
+                    (isinstance(n.func, ast.Attribute) and n.func.attr == "get_layer_node_list" and isinstance(n.func.value, ast.Name) and n.func.value.id != "self"):
+                arg = None
+                if len(n.args) == 1 and not n.keywords:
+                    arg = n.args[0]
+                elif not n.args and len(n.keywords) == 1 and n.keywords[0].arg == "depth":
+                    arg = n.keywords[0].value
+                if arg is not None:
+                    k[0] += 1
+                    base = ast.Call(func=ast.Attribute(value=n.func.value, attr="get_node_list", ctx=ast.Load()), args=[], keywords=[])
+                    return ast.copy_location(ast.Subscript(value=base, slice=arg, ctx=ast.Load()), n)
+            return n
+    T().visit(fn)
+    ast.fix_missing_locations(fn)
+    return k[0]
+
+
+def unzip_mapped(fn):
+    """for a, b in zip(A, [K(v) for v in A]): BODY   ->   for a in A: b = K(a); BODY
+    (the list of keys inline or a local bound once and used only here); K is side-effect free and BODY changes no object state,
+    so computing each key when its element is reached gives the value it had when the list was built."""
+    k = 0
+    for blk in _blocks(fn):
+        for st in list(blk):
+            if not (isinstance(st, ast.For) and isinstance(st.target, ast.Tuple) and len(st.target.elts) == 2 and
+                    all(isinstance(e, ast.Name) for e in st.target.elts) and isinstance(st.iter, ast.Call) and src(st.iter.func) == "zip" and
+                    len(st.iter.args) == 2 and not st.iter.keywords):
+                continue
+            A, B = st.iter.args
+            bdef = None
+            if isinstance(B, ast.Name):
+                occ = [n for n in ast.walk(fn) if isinstance(n, ast.Name) and n.id == B.id]
+                ds = [t for t in blk if isinstance(t, ast.Assign) and len(t.targets) == 1 and isinstance(t.targets[0], ast.Name) and t.targets[0].id == B.id]
+                if len(occ) != 2 or len(ds) != 1 or blk.index(ds[0]) > blk.index(st):
+                    continue
+                bdef = ds[0]
+                comp = bdef.value
+            else:
+                comp = B
+            if not (isinstance(comp, ast.ListComp) and len(comp.generators) == 1 and not comp.generators[0].ifs and
+                    isinstance(comp.generators[0].target, ast.Name) and src(comp.generators[0].iter) == src(A) and pure_expr(comp.elt) and pure_expr(A)):
+                continue
+            if any("<state>" in writes_of(t) or any(x.startswith("<heap") for x in writes_of(t)) for t in st.body):
+                continue
+            if bdef is not None:
+                between = blk[blk.index(bdef) + 1:blk.index(st)]
+                if any("<state>" in writes_of(t) or any(x.startswith("<heap") for x in writes_of(t)) for t in between):
+                    continue
+                rd = {n.id for n in ast.walk(A) if isinstance(n, ast.Name)}
+                if any(isinstance(n, ast.Name) and n.id in rd and isinstance(n.ctx, ast.Store) for t in between for n in ast.walk(t)):
+                    continue
+            a, b = st.target.elts[0].id, st.target.elts[1].id
+            key = _Rename({}, {comp.generators[0].target.id: ast.Name(id=a, ctx=ast.Load())}).visit(copy.deepcopy(comp.elt))
+            first = ast.Assign(targets=[ast.Name(id=b, ctx=ast.Store())], value=key)
+            ast.copy_location(first, st)
+            st.target = ast.copy_location(ast.Name(id=a, ctx=ast.Store()), st.target)
+            st.iter = A
+            st.body = [first] + st.body
+            ast.fix_missing_locations(st)
+            if bdef is not None:
+                blk.remove(bdef)
+            k += 1
     return k
 
 
@@ -2931,6 +3071,26 @@ def unroll_literal_loops(fn, limit=8):
     """`for a, b in ((1, x), (2, y)): BODY` over a literal tuple/list of at most `limit` elements whose loop variables are not
     assigned in BODY and not used after the loop, without break/continue: BODY is repeated with the elements substituted."""
     k = 0
+    # `table = ((a, "x"), (b, "y")); for u, v in table:` - a local bound once to a display and used only as this loop's iterable,
+    # with nothing in between that rebinds what the display reads: the display is the iterable
+    for b in _blocks(fn):
+        for s in list(b):
+            if isinstance(s, ast.For) and isinstance(s.iter, ast.Name):
+                nm = s.iter.id
+                occ = [n for n in ast.walk(fn) if isinstance(n, ast.Name) and n.id == nm]
+                if len(occ) != 2:
+                    continue
+                d = [t for t in b if isinstance(t, ast.Assign) and len(t.targets) == 1 and isinstance(t.targets[0], ast.Name) and t.targets[0].id == nm and
+                     isinstance(t.value, (ast.Tuple, ast.List))]
+                if len(d) != 1 or b.index(d[0]) > b.index(s):
+                    continue
+                rd = {n.id for n in ast.walk(d[0].value) if isinstance(n, ast.Name)}
+                between = b[b.index(d[0]) + 1:b.index(s)]
+                if any(isinstance(n, ast.Name) and n.id in rd and isinstance(n.ctx, ast.Store) for t in between for n in ast.walk(t)) or \
+                        any("<state>" in writes_of(t) for t in between) and any(isinstance(n, (ast.Attribute, ast.Call, ast.Subscript)) for n in ast.walk(d[0].value)):
+                    continue
+                s.iter = d[0].value
+                b.remove(d[0])
     for b in _blocks(fn):
         i = 0
         while i < len(b):
@@ -3353,6 +3513,7 @@ def normalize_tree(file, tree, vocab):
             STABLE[0] = stable_attrs(node if isinstance(node, ast.ClassDef) else None, f)
             CONTAINER_WRITES[0] = container_writes(node) if isinstance(node, ast.ClassDef) else {}
             t0 = scalarise_records(f, rectypes)
+            t0 += canonical_layer_getter(f)
             t0 += unroll_literal_comprehensions(f)
             t0 += split_tuple_assigns(f)
             t0 += expand_return_ifexp(f) + unroll_literal_loops(f) + expand_dict_splats(f) + open_inline_splats(f)
@@ -3361,6 +3522,7 @@ def normalize_tree(file, tree, vocab):
             t0 += seed_list_literals(f)
             t0 += argsort_to_sorted(f)
             t0 += merge_same_branches(f)
+            t0 += unzip_mapped(f)
             t0 += search_to_loop(f)
             t0 += inline_filtered_lists(f)
             t0 += fuse_search_loops(f)
